@@ -3,6 +3,9 @@ import AquaVerif.Drv.RainPartition
 import AquaVerif.Drv.RootZone
 import AquaVerif.Drv.WaterStress
 import AquaVerif.Drv.Drainage
+import AquaVerif.Drv.Yield
+import AquaVerif.Drv.WaterDay
+import AquaVerif.Drv.HarvestIndex
 import AquaVerif.Drv.Germination
 import AquaVerif.Drv.RootDevelopment
 import AquaVerif.Drv.CanopyCover
@@ -54,6 +57,13 @@ def handlers : List (String × Handler) := [
   ("canopy_cover", hCanopyCover),
   ("root_development", hRootDevelopment),
   ("germination", hGermination),
+  ("HIref_current_day", hHIrefCurrentDay),
+  ("harvest_index", hHarvestIndex),
+  ("calculate_HIGC", hCalculateHIGC),
+  ("calculate_HI_linear", hCalculateHILinear),
+  ("water_day", hWaterDay),
+  ("biomass_accumulation", hBiomassAccumulation),
+  ("yield_step", hYieldStep),
   ("clock", hClock),
   ("clock_calls", hClockCalls),
   ("calendar", hCalendar),
